@@ -426,12 +426,35 @@ func cmdCheck(args []string) int {
 			fmt.Printf("SELFTEST-MISS: %s stayed quiet on seeded change %s (verifier weakness, not a violation on /repo)\n", id, m)
 		}
 		fmt.Printf("must-fail corpus: %d run, %d caught, %d missed, %d skipped\n", st.Ran, st.Caught, len(st.Missed), len(st.Skipped))
+		// files whose text can reach one of this property's VCs: those that define a listed function or a
+		// function inlined into one (callees are otherwise read through their contracts, which no change
+		// of the corpus touches)
+		relFiles := map[string]bool{}
+		for _, r := range fnres {
+			for _, n := range append([]string{r.Name}, r.Inlined...) {
+				base := n
+				for {
+					if fn := P.fns[base]; fn != nil && fn.Pos().IsValid() {
+						if rel, err := filepath.Rel(repoRoot, P.prog.Fset.Position(fn.Pos()).Filename); err == nil {
+							relFiles[rel] = true
+						}
+						break
+					}
+					i := strings.LastIndex(base, "$")
+					if i < 0 {
+						break
+					}
+					base = base[:i]
+				}
+			}
+		}
+		mustPassFiles = relFiles
 		mp := runMustPass(id)
 		cov["must_pass_corpus"] = mp
 		for _, m := range mp.Alarmed {
 			fmt.Printf("SELFTEST-FALSE-ALARM: %s alarmed on behaviour-preserving change %s (verifier weakness, not a violation on /repo)\n", id, m)
 		}
-		fmt.Printf("must-pass corpus: %d run, %d quiet, %d alarmed, %d expected binding alarms, %d skipped, %d not run (touch no package of this property)\n", mp.Ran, mp.Quiet, len(mp.Alarmed), len(mp.Expected), len(mp.Skipped), mp.Unrelated)
+		fmt.Printf("must-pass corpus: %d run, %d quiet, %d alarmed, %d expected binding alarms, %d skipped, %d not run (touch no file that defines or is inlined into a function of this property)\n", mp.Ran, mp.Quiet, len(mp.Alarmed), len(mp.Expected), len(mp.Skipped), mp.Unrelated)
 		// agreement between the three solvers
 		disagree := 0
 		for _, vc := range all {
